@@ -1,0 +1,42 @@
+//! Instrumentation used by external verification harnesses.
+//!
+//! Everything in here is additive and only compiled with the `tera_verif` feature: with the
+//! feature off the crate is byte-for-byte what it is without this module.
+
+use std::cell::Cell;
+
+use crate::vm::state::State;
+
+thread_local! {
+    /// First non-empty `(value stack, loop stack, capture stack)` sizes seen at the end of a
+    /// successful interpretation of a fresh state on this thread.
+    static RESIDUE: Cell<Option<(usize, usize, usize)>> = const { Cell::new(None) };
+    /// Number of end-of-interpretation checks performed on this thread.
+    static RESIDUE_CHECKS: Cell<u64> = const { Cell::new(0) };
+}
+
+/// Called by the VM after a fresh `State` has been interpreted successfully (top level render,
+/// include, component): records what is left on the three stacks.
+pub(crate) fn record_residue(state: &State<'_>) {
+    RESIDUE_CHECKS.with(|c| c.set(c.get() + 1));
+    let r = (
+        state.stack.len(),
+        state.for_loops.len(),
+        state.capture_buffers.len(),
+    );
+    if r != (0, 0, 0) {
+        RESIDUE.with(|c| {
+            if c.get().is_none() {
+                c.set(Some(r));
+            }
+        });
+    }
+}
+
+/// Returns and clears the first non-empty residue recorded on this thread since the last call,
+/// together with the number of end-of-interpretation checks performed since then.
+pub fn take_residue() -> (Option<(usize, usize, usize)>, u64) {
+    let r = RESIDUE.with(|c| c.take());
+    let n = RESIDUE_CHECKS.with(|c| c.replace(0));
+    (r, n)
+}
